@@ -639,6 +639,18 @@ func (e *Env) selectField(v Val, name string, src string) Val {
 		T = pt.Elem()
 		isPtr = true
 	}
+	// an interface-level ghost (iface.g) of the object behind a pointer: the payload of any interface value
+	// made from the pointer is the pointer itself
+	if gf, ok := vc.S.Ghosts["iface."+name]; ok && isPtr {
+		if _, own := vc.S.Ghosts[vc.typeName(T)+"."+name]; !own {
+			if obj, _, _ := types.LookupFieldOrMethod(T, true, e.pkgOf(T), name); obj == nil {
+				fam := "H_iface." + name
+				srt := specSort(gf.GType)
+				vc.family(fam, "(Array Int "+srt+")")
+				return Val{L: []string{"(select " + vc.lookup(e.heap, fam) + " " + v.L[0] + ")"}, S: []string{srt}}
+			}
+		}
+	}
 	// ghost field?
 	if gf, ok := vc.S.Ghosts[vc.typeName(T)+"."+name]; ok && isPtr {
 		fam := "H_" + vc.typeName(T) + "." + name
